@@ -46,7 +46,7 @@ static void report(const char *what, mx_ep *e, const char *fmt, ...)
 }
 static int early_data_legit(mx_ep *e)
 {
-    return e->role == MX_SERVER && e->ver == MX_TLS13 && M.scn->cfg.earlyData > 0 && e->ssl->sec.tls13ChosenPsk != NULL
+    return e->role == MX_SERVER && e->ver == MX_TLS13 && M.scn->earlyResumed > 0 && M.scn->resumed && e->ssl->sec.tls13ChosenPsk != NULL
            && matrixSslGetEarlyDataStatus(e->ssl) == MATRIXSSL_EARLY_DATA_ACCEPTED;
 }
 static void on_app(mx_ep *e, const unsigned char *pt, uint32 len)
@@ -121,6 +121,8 @@ static void child_run(void *a_)
             unsigned char p[64]; mx_payload(p, 40, 0x0c01, tgt->role, 99);
             int rc = mx_send(tgt, p, 40);
             int earlyok = tgt->role == MX_CLIENT && tgt->ver == MX_TLS13 && tgt->ssl->sec.tls13DidEncodePsk && matrixSslGetMaxEarlyData(tgt->ssl) > 0;
+            /* a TLS 1.3 server that accepted early data may send 0.5-RTT data: designed behaviour, not asserted either way */
+            if (tgt->role == MX_SERVER && tgt->ver == MX_TLS13 && tgt->ssl->tls13ServerEarlyDataEnabled) earlyok = 1;
             vf_stat("encode_attempts_before_complete", 1);
             if (rc >= 0 && !earlyok) report("encode-before-complete", tgt, "matrixSslEncodeToOutdata returned %d before handshake completion", rc);
             if (rc >= 0) return;   /* state now carries the illegal record; nothing more to learn */
@@ -141,7 +143,8 @@ static void child_run(void *a_)
     }
     if (a->inj->kind == INJ_NONE) {
         /* positive control */
-        if (!mx_conn_established(k)) vf_violation("c01:harness:honest-handshake-failed", M.desc, "honest scenario does not complete");
+        if (M.scn->clientEarly > 0 && M.scn->earlyResumed == 0) { if (k->s.nApp == 0) vf_stat("positive_controls_ok", 1); }   /* 0-RTT sent to a server that has it disabled: refusal is the expected outcome */
+        else if (!mx_conn_established(k)) vf_violation("c01:harness:honest-handshake-failed", M.desc, "honest scenario does not complete");
         else if (k->s.gotlen != (size_t) M.sentlen[0] || k->c.gotlen != (size_t) M.sentlen[1]) vf_violation("c01:harness:honest-data-not-delivered", M.desc, "got %zu/%d %zu/%d", k->s.gotlen, M.sentlen[0], k->c.gotlen, M.sentlen[1]);
         else vf_stat("positive_controls_ok", 1);
     }
